@@ -3,6 +3,7 @@
 package asm
 
 import (
+	"encoding/json"
 	"time"
 )
 
@@ -66,6 +67,9 @@ func equalVals(v0, v1 any) (eq bool) {
 	case time.Time:
 		tm, ok := v1.(time.Time)
 		eq = ok && tm.Equal(t0)
+	case json.Number: // what the parsers give for a number that no int64 or float64 holds
+		n1, ok := v1.(json.Number)
+		eq = ok && n1 == t0
 	case []any:
 		if t1, ok := v1.([]any); ok && len(t0) == len(t1) {
 			eq = true
